@@ -282,6 +282,8 @@ fn tmp_dir() -> PathBuf {
 }
 
 struct ShardOutcome {
+    /// Some(description) when one case used its whole CPU budget outside repository code (a harness problem)
+    harness_stuck: Option<String>,
     /// Some((case index, CPU seconds)) when the worker's CPU watchdog cut off a call that did not return
     cpu_trip: Option<(u64, u64)>,
     report: Option<Report>,
@@ -320,7 +322,7 @@ fn run_shards(check: &Check, tier: Tier, seed: u64, w: &Workload) -> Vec<ShardOu
     let deadline = Instant::now() + Duration::from_secs(w.watchdog_s);
     let mut outcomes = vec![];
     for (shard, outfile, child) in children {
-        let mut outcome = ShardOutcome { cpu_trip: None, report: None, death: None, timed_out: false };
+        let mut outcome = ShardOutcome { harness_stuck: None, cpu_trip: None, report: None, death: None, timed_out: false };
         match child {
             Err(e) => {
                 outcome.death = None;
@@ -375,6 +377,11 @@ fn run_shards(check: &Check, tier: Tier, seed: u64, w: &Workload) -> Vec<ShardOu
                             }
                             None => outcome.death = Some("worker exited 0 without a report".into()),
                         }
+                    } else if st.code() == Some(util::CASE_WATCHDOG_EXIT) {
+                        let wf = format!("{}.cpuwatch", outfile.display());
+                        let text = std::fs::read_to_string(&wf).unwrap_or_default();
+                        let _ = std::fs::remove_file(&wf);
+                        outcome.harness_stuck = Some(text);
                     } else if st.code() == Some(util::CPU_WATCHDOG_EXIT) {
                         let wf = format!("{}.cpuwatch", outfile.display());
                         let v = std::fs::read_to_string(&wf).ok().and_then(|t| serde_json::from_str::<Value>(&t).ok());
@@ -464,6 +471,10 @@ pub fn parent_main(check: &Check, tier: Tier) -> i32 {
                     "workload {} shard {}: watchdog ({} s) fired or worker could not be spawned",
                     w.name, shard, w.watchdog_s
                 ));
+                continue;
+            }
+            if let Some(what) = o.harness_stuck {
+                merged.inconclusive.push(format!("workload {} shard {}: a case did not finish within its CPU budget outside repository code ({})", w.name, shard, what));
                 continue;
             }
             if let Some((index, cpu_s)) = o.cpu_trip {
